@@ -21,7 +21,7 @@ from . import common
 
 ID = 'C05'
 LEVEL = 'fault_enumeration'
-RUNS = {'quick': 1500, 'thorough': 40000}
+RUNS = {'quick': 6000, 'thorough': 40000}
 SIM_TIME_UNIT = 'dense time units (summed over schedules)'
 RULE = ('seeded generation of (dense-time past or pastified bounded-future specification, 1-3 signals of 2..8 samples); inside '
         'each run the chunking dimension is enumerated: all-at-once, one instant per update, every synchronous frontier '
